@@ -9,7 +9,7 @@ Abstract vocabulary (shared with Finder.tla):
         "__init__.py!"  -> __init__.py with pkgutil-style `extend_path` content
         "c14.pth"       -> .pth file whose single line names search path 3 ("pthform": abs | rel)
   * a file id is [path index, relpath]; a listing is {"<p>/<dir relpath joined by />": {"files": [...], "dirs": [...]}}
-    giving, for the directories whose order TLC chose, the order in which os.walk must report
+    giving, for the directories whose order TLC chose, the order in which a directory listing must report
     the (abstract) file names and sub-directory names.
 """
 from __future__ import annotations
@@ -104,48 +104,98 @@ class Layout:
         return "/".join([str(f[0]), *f[1]])
 
 
+class _ScandirResult:
+    """What os.scandir returns (iterator + context manager + close), over an already ordered list of DirEntry."""
+
+    def __init__(self, entries: list):
+        self._it = iter(entries)
+
+    def __iter__(self):
+        return self
+
+    def __next__(self):
+        return next(self._it)
+
+    def __enter__(self):
+        return self
+
+    def __exit__(self, *exc):
+        self.close()
+
+    def close(self):
+        self._it = iter(())
+
+
 @contextlib.contextmanager
 def listing_order(layout: Layout, listing: dict, flip_unlisted: bool = False):
-    """Make os.walk / Path.iterdir (the two enumeration primitives _griffe.finder uses) report directory
-    entries in the order TLC chose.  Directories without a chosen order are reported sorted (reversed
-    when `flip_unlisted`), never in raw OS order, so that every run is reproducible."""
-    real_walk = os.walk
-    real_iterdir = Path.iterdir
+    """Make the interpreter report directory entries in the order TLC chose, whatever enumeration primitive the
+    code under test uses: `os.scandir` and `os.listdir` are wrapped (in CPython 3.12 `os.walk` is built on
+    `os.scandir`, `Path.iterdir`/`glob` on `os.listdir`/`os.scandir`).  Only directories inside the layout are
+    touched.  One listing = TLC's order of the files, then TLC's order of the sub-directories (sub-directories first
+    when `flip_unlisted`); directories without a chosen order are reported sorted (reversed when `flip_unlisted`),
+    never in raw OS order, so that every run is reproducible.  Yields the log of the directories listed."""
+    real_scandir = os.scandir
+    real_listdir = os.listdir
     log = []
 
-    def arrange(dirpath, names, kind):
-        key = layout.dirkey(dirpath)
-        want = (listing.get(key) or {}).get(kind) if key else None
+    def arrange(key, names, kind):
+        want = (listing.get(key) or {}).get(kind)
         names = sorted(names, reverse=flip_unlisted)
         if want is None:
             return names
         pos = {real_name(t): n for n, t in enumerate(want)}
         return sorted(names, key=lambda x: (pos.get(x, len(pos)), x))
 
-    def walk(top, topdown=True, onerror=None, followlinks=False):  # noqa: FBT002
-        for root, dirs, files in real_walk(top, topdown=topdown, onerror=onerror, followlinks=followlinks):
-            dirs[:] = arrange(root, dirs, "dirs")
-            files[:] = arrange(root, files, "files")
-            log.append((str(root), list(dirs), list(files)))
-            yield root, dirs, files
+    def ordered(path, entries: dict) -> list | None:
+        """entries: name -> is_dir.  None when `path` is outside the layout (leave the OS order alone)."""
+        try:
+            key = layout.dirkey(os.path.abspath(os.fsdecode(path)))
+        except (TypeError, ValueError):
+            return None
+        if key is None:
+            return None
+        files = arrange(key, [n for n, d in entries.items() if not d], "files")
+        dirs = arrange(key, [n for n, d in entries.items() if d], "dirs")
+        log.append((key, dirs, files))
+        return (dirs + files) if flip_unlisted else (files + dirs)
 
-    def iterdir(self):
-        entries = list(real_iterdir(self))
+    def scandir(path="."):
+        if isinstance(path, int):
+            return real_scandir(path)
+        with real_scandir(path) as it:
+            entries = list(it)
         byname = {e.name: e for e in entries}
-        files = [n for n, e in byname.items() if not e.is_dir()]
-        dirs = [n for n, e in byname.items() if e.is_dir()]
-        # a single listing: TLC's file order and directory order interleaved dirs-last (or first when flipped)
-        fs, ds = arrange(self, files, "files"), arrange(self, dirs, "dirs")
-        for n in (ds + fs) if flip_unlisted else (fs + ds):
-            yield byname[n]
+        order = ordered(path, {e.name: e.is_dir() for e in entries}) if not isinstance(path, bytes) else None
+        return _ScandirResult(entries if order is None else [byname[n] for n in order])
 
-    os.walk = walk
-    Path.iterdir = iterdir
+    def listdir(path="."):
+        names = real_listdir(path)
+        if isinstance(path, (int, bytes)):
+            return names
+        try:
+            base = os.fsdecode(path)
+            order = ordered(path, {n: os.path.isdir(os.path.join(base, n)) for n in names})
+        except TypeError:
+            order = None
+        return names if order is None else order
+
+    os.scandir = scandir
+    os.listdir = listdir
     try:
         yield log
     finally:
-        os.walk = real_walk
-        Path.iterdir = real_iterdir
+        os.scandir = real_scandir
+        os.listdir = real_listdir
+
+
+def not_injected(listing: dict, log: list, tree: list) -> list:
+    """Directories whose order TLC chose (>= 2 files or >= 2 sub-directories) and from which a module *was* loaded
+    (so the finder enumerated them) although none of the wrapped primitives listed them: the injection did not
+    reach the code there (another enumeration primitive is in use)."""
+    seen = {key for key, _d, _f in log}
+    used = {"/".join([str(f[0]), *f[1][:-1]]) for n in tree for f in n["files"] if f and not n["ns"]}
+    return sorted(k for k, ent in listing.items()
+                  if (len(ent.get("files", [])) > 1 or len(ent.get("dirs", [])) > 1) and k in used and k not in seen)
 
 
 def classify(mod) -> str:
@@ -225,4 +275,5 @@ def run_griffe(griffe, layout: Layout, listing: dict, request: str, *, find_stub
             out["outcome"] = "Other:" + type(exc).__name__
             out["detail"] = repr(exc)
     out["walked"] = len(log)
+    out["not_injected"] = not_injected(listing, log, out["tree"])
     return out
